@@ -81,6 +81,8 @@ def handleWire (w : WSt) (ws : List String) : Option (WSt × String) :=
   | ["mon_cn", "afterend", op, r, sst] => some (w, showViols (H2V.Spec.Verdict.afterEnd op r sst))
   | ["mon_cn", "connresult", pc, r, rc] =>
     some (w, showViols (H2V.Spec.Verdict.connResult ((pc.splitOn ",").filterMap (·.toNat?)) r (rc.toNat?.getD 0)))
+  | ["mon_cn", "ioerr", raised, reported] =>
+    some (w, showViols (H2V.Spec.Verdict.ioSurfaced ((raised.splitOn ",").filter (· ≠ "-")) reported))
   | ["mon_cn", "quiescent"] => some (w, showViols (quiescent w))
   | ["mon_cn", "delivered", sid, what] =>
     match sid.toNat? with
